@@ -1468,7 +1468,10 @@ func (i SmallInt) ModuloBigInt(other *BigInt) (Value, Value) {
 		return (i % oSmall).ToValue(), Undefined
 	}
 
-	return i.ToValue(), Undefined
+	// the divisor is larger in magnitude than every SmallInt
+	// with one exception: the lowest SmallInt and 2**63
+	result := (&big.Int{}).Rem(big.NewInt(int64(i)), other.ToGoBigInt())
+	return ToElkBigInt(result).Normalize(), Undefined
 }
 
 func (i SmallInt) ModuloBigFloat(other *BigFloat) *BigFloat {
